@@ -284,22 +284,14 @@ type isoLoop struct {
 }
 
 // activeCut: the line from which quantified hypotheses are kept for obligations generated in block b - the head of the
-// most recently entered isolate loop that contains b, or whose enclosing loop (if any) contains b (code downstream of a
-// finished loop keeps that loop's head invariants; once the enclosing loop is left, its own cut applies again).
+// innermost-latest isolate loop whose header dominates b (code downstream of a finished loop keeps that loop's head
+// invariants; code after an enclosing loop is not dominated by the inner header, so the outer cut applies again).
 func (ex *Exec) activeCut(fr *Frame, b *ssa.BasicBlock) int {
 	cut := 0
 	for _, il := range ex.isoLoops {
-		ok := il.li.body[b.Index]
-		if !ok {
-			var parent *loopInfo
-			for _, p := range fr.loops {
-				if p != il.li && p.body[il.li.header.Index] && (parent == nil || len(p.body) < len(parent.body)) {
-					parent = p
-				}
-			}
-			ok = parent == nil || parent.body[b.Index]
-		}
-		if ok && il.cut > cut {
+		// inside the loop or downstream of it: exactly the blocks its header dominates (blocks are not executed in
+		// program order, so "entered earlier" alone does not mean "upstream")
+		if il.li.header.Dominates(b) && il.cut > cut {
 			cut = il.cut
 		}
 	}
